@@ -1,0 +1,29 @@
+//go:build verif
+
+package smtp
+
+import (
+	"encoding/json"
+	"os"
+)
+
+// With the build tag "verif" and VERIF_TRACE_OUT set, the package's own tests record what the
+// endpoint sessions did (verif_trace.go) as NDJSON; /verif validates those traces against the
+// TLA+ specification of the session (SessionHookTrace.tla). The tests themselves are unchanged.
+
+func init() {
+	out := os.Getenv("VERIF_TRACE_OUT")
+	if out == "" {
+		return
+	}
+	f, err := os.OpenFile(out, os.O_WRONLY|os.O_CREATE|os.O_APPEND, 0o644)
+	if err != nil {
+		panic(err)
+	}
+	enc := json.NewEncoder(f)
+	VerifTraceSink = func(ev map[string]interface{}) { // called under the tracer's mutex
+		if err := enc.Encode(ev); err != nil {
+			panic(err)
+		}
+	}
+}
